@@ -5,6 +5,7 @@ import (
 	"errors"
 	"fmt"
 	"reflect"
+	"strings"
 	"sync"
 	"sync/atomic"
 	"time"
@@ -258,6 +259,9 @@ func classify(err error) (int, []int) {
 	}
 	if errors.Is(err, godi.ErrSingletonNotInitialized) {
 		add(ESingletonNotInit)
+	}
+	if strings.Contains(err.Error(), "returned nil instance") {
+		add(ENilInstance)
 	}
 	var de *godi.DisposalError
 	var dev godi.DisposalError
